@@ -221,8 +221,8 @@ BUILDER = {
     },
     "C04": {
         "invariants": ["Inv_C04"],
-        "exh": {"quick": [("C04_Docs", 2, 2, "C04_Range")],
-                "thorough": [("C04_Docs", 2, 2, "C04_Range"), ("C04_Docs3", 3, 3, "C04_Range3")]},
+        "exh": {"quick": [("C04_Docs", 2, 2, "C04_Range"), ("C04_DocsL", 2, 3, "C04_RangeL")],
+                "thorough": [("C04_Docs", 2, 2, "C04_Range"), ("C04_DocsL", 2, 3, "C04_RangeL"), ("C04_Docs3", 3, 3, "C04_Range3")]},
         "mutations": [{"switch": "AbsLookup", "docs": "C04_Docs3", "range": "C04_Range3", "stages": (2, 2), "expect": ["Inv_C04"]},
                       {"switch": "FnTruthyWhenEmpty", "docs": "C04_Docs", "range": "C04_Range", "stages": (2, 2), "expect": ["Inv_C04"]},
                       {"mutation": "PruneEqualPriority", "docs": "C04_Docs3", "range": "C04_Range3", "stages": (2, 2), "expect": ["Inv_C04"]},
